@@ -57,7 +57,7 @@ def check_s(desc, acc):
     if desc["kind"] == "H":
         N = list(desc["nodes"])
         E = [tuple(sorted(e)) for e in desc["edges"]]
-        for detour in (False, True):
+        for detour in (False, True, 2):
             h = C.build(desc, detour=detour)
             for s in (1, 2, 3):
                 lg = line_graph_def(E, s)
@@ -266,6 +266,9 @@ def worker(part, acc):
 
 
 def run(ctx):
+    from ..seams import validate as _validate_seams
+
+    seam_report = _validate_seams(PROP)  # real random sources under a recorder: every API reached must be modelled (else exit 2)
     sc = [("s", d) for d in s_corpus(ctx.tier)]
     eg = list(eig_items(ctx.tier))
     items = sc + eg
@@ -278,6 +281,7 @@ def run(ctx):
     e = eg[(ctx.seed * 7 + 3) % len(eg)][1]
     ctx.sample({"uniform": {"n": e[0], "k": e[1], "edges": [list(x) for x in e[2]], "start_vectors": len(start_menu(e[0], ctx.tier))}})
     cov = {
+        "seam_validation": seam_report,
         "evaluations": ev, "distinct_nontrivial": len(nt), "exhaustive": True, "distinct_outcomes": len(oc),
         "rule": "s-betweenness/closeness (s=1,2,3), node versions and sub-hypergraph centrality on every Hypergraph over {2,5,7,11}+isolated 13 and over the "
                 "string labels {a,b,c,E} with <=3 (quick) / <=4 hyperedges, direct and detour builds; averaged versions on TemporalHypergraphs with <=3/4 records "
